@@ -42,7 +42,7 @@ func TestC05NonceStore(t *testing.T) {
 				defer removeAll(dir)
 				st = mustOpenBadger(rt, dir)
 			}
-			defer func() { st.Close() }()
+			defer func() { closeStore(st) }()
 			model := so.NewModel()
 			var hist, sigParts []string
 			accepted, rejectedAfterAccept, boundary, reopened, raced := 0, 0, 0, 0, 0
@@ -100,7 +100,7 @@ func TestC05NonceStore(t *testing.T) {
 					if driver != "badgerdisk" {
 						continue
 					}
-					if err := st.Close(); err != nil {
+					if err := closeStore(st); err != nil {
 						fail("close: %v", err)
 					}
 					st = mustOpenBadger(rt, dir)
